@@ -25,10 +25,9 @@ package help
 //@   modifies
 //@   ensures indent.text {C18}: result == repeat(" ", Indentation) ++ s
 
-// pad: fmt's "%-Ns" left-justifies, i.e. the text stays a prefix of the result (trusted formatting semantics).
+// pad: fmt's "%-Ns" left-justifies, i.e. the text stays a prefix of the result (library specification of the verb).
 //@ func pad
 //@   props C18 C19
-//@   trusted
 //@   modifies
 //@   ensures pad.off {C18}: !do ==> result == s
 //@   ensures pad.on {C18}: do ==> hasprefix(result, s)
@@ -54,21 +53,54 @@ package help
 //@   ensures list.default {C18}: !opt.IsRequired ==> contains(result, "(default: " ++ opt.DefaultStr)
 //@   ensures list.env {C18}: opt.EnvVar != "" ==> contains(result, "env: " ++ opt.EnvVar)
 
-// Section renderers: pure functions of their arguments (frame only; the per-entry contracts are Synopsis$1 / OptionList$1).
+// Section renderers. What is proved about their bodies (C18): every option handed in lands in the required or the normal
+// list (partition invariants; option.Sort keeps the records), and every iteration of the rendering loops appends an entry
+// that mentions the element - its synopsis text, for non-required options the default - while the text built so far stays a
+// prefix (per-iteration step clauses). That the final text mentions every element follows by induction over the loop and is
+// not mechanised; exactly-once and the column layout are not claimed.
+//@ spec func OptsListOK(options []*option.Option) bool = forall i int :: 0 <= i && i < len(options) ==> options[i] != nil && KindOK(options[i].OptType)
 //@ func Name
 //@   props C18 C19
 //@   modifies
+//@ func longestStringLen
+//@   props C18 C19
+//@   modifies
+//@   ensures result >= 0
+//@   loop "for _, e := range s"
+//@     invariant i >= 0
 //@ func Synopsis
 //@   props C18 C19
-//@   trusted
-//@   requires forall i int :: 0 <= i && i < len(options) ==> options[i] != nil
+//@   requires syn.opts: OptsListOK(options)
+//@   allocates []*option.Option, []string
 //@   modifies
+//@   loop "for _, option := range options"
+//@     invariant part.ok: OptsListOK(requiredOptions) && OptsListOK(normalOptions)
+//@     invariant part.all {C18}: forall j int :: 0 <= j && j <= $idx ==> inseq(options[j], requiredOptions) || inseq(options[j], normalOptions)
+//@   loop "for _, option := range append(requiredOptions, normalOptions...)"
+//@     invariant syn.kinds: OptsListOK($ranged)
+//@     step syn.entry {C18}: contains(out ++ line, $ranged[$idx].HelpSynopsis) && hasprefix(out ++ line, old_iter(out ++ line))
 //@ func CommandList
 //@   props C18 C19
-//@   trusted
+//@   allocates []string
 //@   modifies
+//@   loop "for name := range commandMap"
+//@     invariant names.complete {C18}: forall q string :: (q in $seen) ==> inseq(q, names)
+//@     invariant names.sound: forall i int :: 0 <= i && i < len(names) ==> (names[i] in commandMap)
+//@   loop "for _, command := range names"
+//@     step cmds.entry {C18}: contains(out, names[$idx]) && hasprefix(out, old_iter(out))
 //@ func OptionList
 //@   props C18 C19
-//@   trusted
-//@   requires forall i int :: 0 <= i && i < len(options) ==> options[i] != nil
+//@   requires list.opts: OptsListOK(options)
+//@   allocates []*option.Option, SynopsisArg
 //@   modifies
+//@   loop "for _, opt := range options"
+//@     invariant part.ok: OptsListOK(requiredOptions) && OptsListOK(normalOptions)
+//@     invariant part.req {C18}: forall j int :: 0 <= j && j <= $idx && options[j].IsRequired ==> inseq(options[j], requiredOptions)
+//@     invariant part.norm {C18}: forall j int :: 0 <= j && j <= $idx && !options[j].IsRequired ==> inseq(options[j], normalOptions)
+//@     invariant part.kinds: (forall j int :: 0 <= j && j < len(requiredOptions) ==> requiredOptions[j].IsRequired) && (forall j int :: 0 <= j && j < len(normalOptions) ==> !normalOptions[j].IsRequired)
+//@   loop "for _, option := range requiredOptions"
+//@     invariant req.kinds: OptsListOK(requiredOptions) && OptsListOK(normalOptions) && (forall j int :: 0 <= j && j < len(normalOptions) ==> !normalOptions[j].IsRequired)
+//@     step req.entry {C18}: contains(out, requiredOptions[$idx].HelpSynopsis) && hasprefix(out, old_iter(out))
+//@   loop "for _, option := range normalOptions"
+//@     invariant norm.kinds: OptsListOK(normalOptions) && (forall j int :: 0 <= j && j < len(normalOptions) ==> !normalOptions[j].IsRequired)
+//@     step norm.entry {C18}: contains(out, normalOptions[$idx].HelpSynopsis) && contains(out, "(default: " ++ normalOptions[$idx].DefaultStr) && hasprefix(out, old_iter(out))
